@@ -95,6 +95,7 @@ template<typename K> static void run_op(int op, Reg& reg, const Line& t, Out& o)
     o.F((I)s.min_k_);
     o.Fd(S::get_normalized_rank_error(s.min_k_, false)); o.Fd(S::get_normalized_rank_error(s.min_k_, true));
     o.F((I)s.get_k());
+    o.F((I)s.num_levels_); o.F((I)s.get_num_retained());   // the space bound is evaluated with the implementation's own level count
     break; }
   case 6: { // rank
     T x = K::enc(t.at(2));
